@@ -298,8 +298,14 @@ Section Interp.
           eval fuel' coll s (fun cv s1 => match loop kv vv cv body s1 with
                                           | Some s2 => k s2
                                           | None => kbad "loop not recognised" end)
-      | GWhile _ _ => kbad "loop"
-      | GFor _ _ _ _ => kbad "loop"
+      | GWhile _ body =>           (* `for cond { ... }` / `for { ... }`: recognised as a whole by the tie, like range loops *)
+          match loop "$while" "" VNil body s with
+          | Some s2 => k s2
+          | None => kbad "loop not recognised" end
+      | GFor _ _ _ body =>
+          match loop "$for" "" VNil body s with
+          | Some s2 => k s2
+          | None => kbad "loop not recognised" end
       | GDefer e =>
           match e with
           | GCall "$closure" [GFunc body] => k (push_defer body s)     (* defer func() { ... }() *)
